@@ -181,6 +181,39 @@ def recordCounts (rate draw : Dy) (metrics : List (List Obs)) : List (List Nat) 
 The same expression tree is instantiated with exact rationals (theorems, `Props/C12.lean`) and with
 correctly rounded binary32 (`f32Arith`, compared bit for bit with the implementation). -/
 
+/-! ### Group identity
+
+An entry yields its sample group as a list of `(key, value)` pairs in whatever order it likes
+(`Entry::sample_group`: "the order of (key, value) pairs in the group doesn't matter, but each key must
+be unique"). `CongressSample::format` sorts the pairs (`group.sort_unstable()`) before anything else:
+the group's identity is the *sorted* pair list. Keys and values are numbered (`Nat`). -/
+
+abbrev Pair := Nat × Nat
+/-- a group key: a list of pairs; canonical when sorted (`canon`) -/
+abbrev Key := List Pair
+
+/-- lexicographic order on pairs (the order of Rust tuples) -/
+def pairLe (a b : Pair) : Bool := a.1 < b.1 || (a.1 == b.1 && a.2 ≤ b.2)
+
+def insertPair (a : Pair) : Key → Key
+  | [] => [a]
+  | b :: l => if pairLe a b then a :: b :: l else b :: insertPair a l
+
+/-- `group.sort_unstable()` (insertion sort: the result of sorting does not depend on the algorithm) -/
+def canon (l : Key) : Key := l.foldr insertPair []
+
+/-- the `validate_groups` check on a sorted group: two neighbours with the same key name -/
+def hasDupKey : Key → Bool
+  | a :: b :: l => a.1 == b.1 || hasDupKey (b :: l)
+  | _ => false
+
+/-- lexicographic order on keys (only used to print groups in a canonical order) -/
+def keyLt : Key → Key → Bool
+  | [], [] => false
+  | [], _ :: _ => true
+  | _ :: _, [] => false
+  | a :: l, b :: m => if a = b then keyLt l m else pairLe a b
+
 structure Arith (α : Type) where
   ofNat : Nat → α
   add : α → α → α
@@ -197,7 +230,8 @@ structure Consts where
   ttl : Nat
 
 structure Group (α : Type) where
-  gid : Nat
+  /-- the group's identity: the sorted pair list -/
+  gid : Key
   /-- `GroupState::current_observed` -/
   cur : Nat
   /-- `consecutive_no_observations` -/
@@ -225,13 +259,13 @@ def State.init (target : Nat) : State α := ⟨target, 0, []⟩
 
 /-- `sample_rate(group)` without the clock: counts the observation, creates the group with rate 1,
 returns the group's rate. -/
-def observeGroups (A : Arith α) (gid : Nat) : List (Group α) → List (Group α) × α
+def observeGroups (A : Arith α) (gid : Key) : List (Group α) → List (Group α) × α
   | [] => ([⟨gid, 1, 0, 0, A.ofNat 0, A.ofNat 1, A.ofNat 0⟩], A.ofNat 1)
   | g :: gs =>
     if g.gid = gid then ({ g with cur := g.cur + 1 } :: gs, g.rate)
     else ((g :: (observeGroups A gid gs).1), (observeGroups A gid gs).2)
 
-def observe (A : Arith α) (s : State α) (gid : Nat) : State α × α :=
+def observe (A : Arith α) (s : State α) (gid : Key) : State α × α :=
   ({ s with cur := s.cur + 1, groups := (observeGroups A gid s.groups).1 }, (observeGroups A gid s.groups).2)
 
 /-- `ExpMovingAverage::add_sample` -/
@@ -260,11 +294,11 @@ def scaledRate (A : Arith α) (scale : α) (g : Group α) : α :=
 /-- Put the groups into the order in which the implementation's hash map iterates (`order` lists
 group ids; repeated ids and ids not present are ignored, groups not listed keep their relative order at the end).
 Only the floating-point *sum* `congress_size` depends on it. -/
-def reorder (order : List Nat) (gs : List (Group α)) : List (Group α) :=
+def reorder (order : List Key) (gs : List (Group α)) : List (Group α) :=
   (order.eraseDups.filterMap fun id => gs.find? (·.gid = id)) ++ gs.filter (fun g => !order.contains g.gid)
 
 /-- `update_rates` -/
-def updateRates (A : Arith α) (C : Consts) (order : List Nat) (s : State α) : State α :=
+def updateRates (A : Arith α) (C : Consts) (order : List Key) (s : State α) : State α :=
   let retained := reorder order (s.groups.filterMap (updateAndRetain A C))
   let cur := A.ofNat s.cur
   let target := A.ofNat s.target
@@ -281,24 +315,24 @@ def updateRates (A : Arith α) (C : Consts) (order : List Nat) (s : State α) : 
 /-- One step of a history. -/
 inductive Op where
   /-- one entry of group `gid` is formatted -/
-  | obs (gid : Nat)
+  | obs (gid : Key)
   /-- `n` entries of group `gid` (same as `n` times `obs gid`, see `c12_obsN`) -/
-  | obsN (gid n : Nat)
+  | obsN (gid : Key) (n : Nat)
   /-- the interval ends; `order` = iteration order of the hash map -/
-  | endInterval (order : List Nat)
+  | endInterval (order : List Key)
   deriving Repr
 
-def observeN (A : Arith α) (s : State α) (gid : Nat) : Nat → State α
+def observeN (A : Arith α) (s : State α) (gid : Key) : Nat → State α
   | 0 => s
   | n + 1 => observeN A (observe A s gid).1 gid n
 
 /-- add `k` to the count of the first group with id `gid` -/
-def bumpFirst (gid k : Nat) : List (Group α) → List (Group α)
+def bumpFirst (gid : Key) (k : Nat) : List (Group α) → List (Group α)
   | [] => []
   | g :: gs => if g.gid = gid then { g with cur := g.cur + k } :: gs else g :: bumpFirst gid k gs
 
 /-- closed form of `observeN` (used by the driver for large volumes; `c12_obsN_bulk`) -/
-def observeBulk (A : Arith α) (s : State α) (gid n : Nat) : State α :=
+def observeBulk (A : Arith α) (s : State α) (gid : Key) (n : Nat) : State α :=
   if n = 0 then s
   else { s with cur := s.cur + n, groups := bumpFirst gid (n - 1) (observeGroups A gid s.groups).1 }
 
@@ -309,6 +343,39 @@ def step (A : Arith α) (C : Consts) (s : State α) : Op → State α
 
 def run (A : Arith α) (C : Consts) (s : State α) (ops : List Op) : State α :=
   ops.foldl (step A C) s
+
+/-! ### Entries: from the pairs an entry yields to the group key
+
+`κ` is the canonicalisation applied to the yielded pairs: `canon` in the code (`group.sort_unstable()`
+runs unconditionally). The parameter exists so that the broken variant (no sort: `κ = id`) can be
+stated and refuted (`Props/C12.lean`, `c12_sort_needed`). -/
+
+/-- what the sampler is fed -/
+inductive EOp where
+  /-- one entry whose `sample_group()` yields these pairs, in this order -/
+  | entry (pairs : Key)
+  /-- `n` such entries -/
+  | entries (pairs : Key) (n : Nat)
+  | endInterval (order : List Key)
+  deriving Repr
+
+/-- `CongressSample::format` up to the call of `sample_rate`: `none` = the duplicate-key assertion
+fires (`validate_groups`), the sampler's state is untouched. -/
+def entryKey (κ : Key → Key) (validate : Bool) (pairs : Key) : Option Key :=
+  if validate && hasDupKey (κ pairs) then none else some (κ pairs)
+
+def toOp (κ : Key → Key) (validate : Bool) : EOp → Option Op
+  | .entry p => (entryKey κ validate p).map .obs
+  | .entries p n => (entryKey κ validate p).map (.obsN · n)
+  | .endInterval order => some (.endInterval order)
+
+/-- a history of entries is a history of group observations -/
+def runE (A : Arith α) (C : Consts) (κ : Key → Key) (validate : Bool) (s : State α) (eops : List EOp) : State α :=
+  run A C s (eops.filterMap (toOp κ validate))
+
+/-- the rate handed to the next entry yielding `pairs` (`none` = panic) -/
+def entryRate (A : Arith α) (κ : Key → Key) (validate : Bool) (s : State α) (pairs : Key) : Option α :=
+  (entryKey κ validate pairs).map fun k => (observe A s k).2
 
 /-! ### binary32 instance -/
 
